@@ -12,7 +12,7 @@ def doc(label, rfc, d, sa, da, lcn):
     return {"label": label, "defines": defs}
 doc_q = [doc("norfc_nodoc", 0, 0, -20, -20, 0), doc("norfc_doc20_20", 0, 1, -20, -20, 0), doc("norfc_doc32_32_lcnull", 0, 1, -32, -32, 1), doc("norfc_doc20_32", 0, 1, -20, -32, 0),
          doc("rfc_doc20_20", 1, 1, -20, -20, 0), doc("rfc_doc32_20", 1, 1, -32, -20, 0), doc("rfc_nodoc", 1, 0, -20, -20, 0), doc("norfc_doc64_48", 0, 1, -64, -48, 0)]
-doc_t = doc_q + [doc("norfc_doc48_48", 0, 1, -48, -48, 0), doc("norfc_doc64_64", 0, 1, -64, -64, 0), doc("rfc_doc28_28", 1, 1, -28, -28, 0), doc("rfc_doc32_32", 1, 1, -32, -32, 0)]
+doc_t = doc_q + [doc("norfc_doc48_48", 0, 1, -48, -48, 0), doc("norfc_doc64_64", 0, 1, -64, -64, 0), doc("rfc_doc28_32", 1, 1, -28, -32, 0), doc("rfc_doc32_32", 1, 1, -32, -32, 0)]
 
 plan = {
  "property": "C02",
@@ -31,7 +31,7 @@ plan = {
   {"name": "h1_doc", "src": "h1_doc.c", "env": ENV, "tus": ["verification_rule", "signature", "hashchain", "hash"], "unwind": 6, "timeout": 300, "object_bits": 12,
    "functions": ["KSI_VerificationRule_DocumentHashDoesNotExist", "KSI_VerificationRule_DocumentHashExistence", "KSI_VerificationRule_InputHashAlgorithmVerification", "KSI_VerificationRule_DocumentHashVerification",
                  "KSI_VerificationRule_AggregationChainInputLevelVerification", "KSI_Signature_getDocumentHash", "KSI_RFC3161_getInputHash", "KSI_DataHash_equals", "KSI_DataHash_getHashAlg"],
-   "bound": "shapes: RFC3161 record present / absent x document hash given / not x digest-length class of signed and document hash (quick: 20/20, 32/32, 20/32, 32/20, 64/48; thorough also 48/48, 64/64, 28/28) x first link with / without level correction; symbolic: algorithm ids in the class, all digest bytes, level and level correction (64 bit)",
+   "bound": "shapes: RFC3161 record present / absent x document hash given / not x digest-length class of signed and document hash (quick: 20/20, 32/32, 20/32, 32/20, 64/48; thorough also 48/48, 64/64, 28/32, 32/32 with RFC3161) x first link with / without level correction; symbolic: algorithm ids in the class, all digest bytes, level and level correction (64 bit)",
    "instances": doc_q, "thorough": {"instances": doc_t}},
   {"name": "h5_policies", "src": "h5_policies.c", "env": ["ctx", "list_wrap"], "tus": [], "unwind": 14, "unwindset": ["Rule_verify.0:14"], "timeout": 300, "object_bits": 12,
    "functions": ["Rule_verify", "Policy_verifySignature", "internalRules", "calendarBasedRules", "keyBasedRules", "publicationsFileBasedRules", "userProvidedPublicationBasedRules", "generalRules"],
